@@ -81,6 +81,11 @@ pub struct Track {
     pub cause: BTreeMap<String, String>,
     pub before: BTreeMap<String, String>,
     pub judged: bool,
+    /// this coordinator was the leader at its previous sync, and in which term
+    pub leader_term_at_last_sync: Option<u64>,
+    /// leader now, in the same term as at the previous sync: every replicated command since then came from this
+    /// coordinator's own handlers, so the sync has nothing to tell it
+    pub stable_leader: bool,
     pub reverted: Vec<(String, String)>,
     pub syncs_judged: u64,
 }
@@ -117,6 +122,9 @@ pub fn hl_before_sync(c: &Coordinator) {
             t.attribute("background", v.clone());
             t.before = v;
             t.judged = c.ha_role.is_writer();
+            let term = c.raft_handle.as_ref().map(|h| h.raft.metrics().borrow().current_term);
+            t.stable_leader = t.judged && term.is_some() && t.leader_term_at_last_sync == term;
+            t.leader_term_at_last_sync = if t.judged { term } else { None };
         }
     });
 }
@@ -142,6 +150,25 @@ pub fn hl_after_sync(c: &Coordinator) {
                             t.reverted.push((sig, format!("node {} (leader): {} was set to {} by {} and sync_from_raft changed it back to {}", node, k, b, by, a)));
                         }
                         None => t.reverted.push((format!("{};removed;by={}", entity(k), by), format!("node {} (leader): {} = {} came from {} and sync_from_raft removed it", node, k, b, by))),
+                    }
+                }
+                // A coordinator that has been the leader since its previous sync already knows everything that was
+                // replicated (it wrote it): whatever the sync still changes, without a local change to explain it, is
+                // replicated state that differs from what this leader acknowledged (e.g. a refused request that was
+                // replicated anyway).
+                if t.stable_leader {
+                    for (k, b) in &t.before {
+                        if t.cause.contains_key(k) { continue; }
+                        match after.get(k) {
+                            Some(a) if a == b => {}
+                            Some(a) => t.reverted.push((format!("{};no-local-change", field_kind(k)), format!("node {} (leader since its previous sync): sync_from_raft changed {} from {} to {} although nothing changed it locally", node, k, b, a))),
+                            None => t.reverted.push((format!("{};removed;no-local-change", entity(k)), format!("node {} (leader since its previous sync): sync_from_raft removed {} (= {}) although nothing changed it locally", node, k, b))),
+                        }
+                    }
+                    for (k, a) in &after {
+                        if !t.before.contains_key(k) && !t.cause.contains_key(k) {
+                            t.reverted.push((format!("{};appeared;no-local-change", entity(k)), format!("node {} (leader since its previous sync): sync_from_raft created {} = {} which this leader never acknowledged", node, k, a)));
+                        }
                     }
                 }
                 for (k, a) in &after {
